@@ -88,6 +88,8 @@ THEOREMS = [
     "PV.C01TableLegacy.C01_step_indexError_fast",
     "PV.C01TableLegacy.C01_step_indexError_legacy",
     "PV.C01TableLegacy.C01_step_never_ok_fast",
+    "PV.C01TableLegacy.C01_step_ok_only_boundary",
+    "PV.C01TableLegacy.C01_step_column_mislabel",
     "PV.C01TableLegacy.Ex.table",
     "PV.C01TableLegacy.ExDat.table",
     "PV.C01TableLegacy.ExStep.fast_3_2",
@@ -329,17 +331,16 @@ def _legacy_lists_case(ctx, ssi, H, br, ordmax, step, key):
 
 def _step_crash_stream(ctx, ssi, H, Y, ref, br, method, ordmax, dt):
     """step >= 2 as coded.  SSI_fast / SSI build lists with ONE entry per multiple of `step`; SSI_poles indexes them by ORDER.
-    For ordmax > step the real SSI_poles and the model `ssiPoles` must BOTH end in IndexError (theorems
-    C01_step_indexError_fast / _legacy); for ordmax == step both return (the order-`step` poles sit in column 1) and the cells
+    For ordmax > step (and for 1 <= ordmax < step) the real SSI_poles and the model `ssiPoles` must BOTH end in IndexError
+    (theorems C01_step_indexError_fast / _legacy, C01_step_ok_only_boundary); for ordmax == step both return (the order-`step` poles sit in column 1) and the cells
     agree.  The same through the class (SSIcov / SSIdat with step >= 2): run() raises IndexError."""
     rng = ctx.rng
     step = rng.choice([2, 2, 3])
-    om = rng.choice([step, step + 1, min(ordmax, step + 2), ordmax])
-    om = max(om, step)
+    om = rng.choice([step - 1, step, step + 1, max(step, min(ordmax, step + 2)), max(step, ordmax)])
     if om > min(H.shape) - 1:
         ctx.skipped += 1
         return
-    expect = "IndexError" if om > step else None
+    expect = "IndexError" if om != step else None  # C01_step_ok_only_boundary: returns only for ordmax == step
     for routine in ("fast", "legacy"):
         if routine == "fast":
             Obs, A, C, *_ = ssi.SSI_fast(H, br, om, step)
@@ -354,7 +355,7 @@ def _step_crash_stream(ctx, ssi, H, Y, ref, br, method, ordmax, dt):
         except IndexError:
             raised = "IndexError"
         ctx.count(f"step_{routine}_{'crash' if raised else 'returns'}")
-        ctx.corr(f"ssi.SSI_poles[{routine} lists,same step]", raised == expect, {"ordmax": om, "step": step}, expect, raised, ("same-step", routine, om > step))
+        ctx.corr(f"ssi.SSI_poles[{routine} lists,same step]", raised == expect, {"ordmax": om, "step": step}, expect, raised, ("same-step", routine, (om > step) - (om < step)))
         _poles_case(ctx, ssi, f"ssi.SSI_poles[{routine} lists,same step]", Obs, A, C, om, dt, step, ("same-step-model", routine, om, step))
     if om > step and rng.random() < 0.5:
         from pyoma2.algorithms import SSIcov, SSIdat
